@@ -13,6 +13,19 @@ Alpha6 == << <<1,3,1,1,1,1>>,     \* 1: tent at 2, height 3
 Alpha6a == SubSeq(Alpha6, 1, 6)
 Alpha6b == SubSeq(Alpha6, 1, 4)
 
+Alpha8 == << <<1,3,1,1,1,1,1,1>>,   \* 1: tent at 2, height 3
+             <<1,1,4,1,1,1,1,1>>,   \* 2: tent at 3, height 4
+             <<1,1,1,2,1,1,1,1>>,   \* 3: tent at 4, height 2
+             <<1,1,1,1,5,1,1,1>>,   \* 4: tent at 5, height 5
+             <<1,1,1,1,1,3,1,1>>,   \* 5: tent at 6, height 3
+             <<1,1,1,1,1,1,4,1>>,   \* 6: tent at 7, height 4
+             <<1,2,1,1,1,3,1,1>>,   \* 7: two peaks (2: height 2, 6: height 3)
+             <<1,1,1,1,1,1,1,1>> >> \* 8: flat
+Alpha8a == SubSeq(Alpha8, 1, 7)
+Ranges8 == { <<NoEnd, NoEnd>>, <<NoEnd, 12>>, <<4, NoEnd>>, <<4, 14>> }
+NSetC == { <<1, 1>>, <<3, 2>>, <<2, 1>>, <<3, 1>> }
+MaxItsC == {1, 2, 3, 50}
+
 \* NF = 6: half-step lattice 0..14
 \* range ends sit on grid points here (even half-steps): snapping ties are the business of Peaks.tla;
 \* Ranges6t adds the tie ends for configurations that want them
@@ -30,10 +43,34 @@ InitAll == [Az -> [Win -> 1..Len(Alphabet)]]
 \* windows in non-decreasing curve id (the time-domain masks break the symmetry only by position)
 InitSorted == { f \in InitAll : \A a \in Az : \A w \in 1..(NW-1) : f[a][w] <= f[a][w+1] }
 \* seeded sample of the initial assignments (export runs): VERIF_K buckets, bucket VERIF_SEED mod K
-HashCv(f) == FoldSet(LAMBDA a, acc : acc + FoldSet(LAMBDA w, ac2 : ac2 + f[a][w] * (5 * a + 2 * w + 1), 0, Win), 0, Az)
+\* positional hash of an assignment: base-11 digits in (azimuth, window) order
+RECURSIVE HashSeq(_, _)
+HashSeq(q, acc) == IF q = <<>> THEN acc ELSE HashSeq(Tail(q), (acc * 11 + Head(q)) % 1000003)
+\* ascending sort of a sequence of integers (with repetitions)
+RECURSIVE SortedSeqBag(_)
+SortedSeqBag(q) ==
+    IF q = <<>> THEN <<>>
+    ELSE LET i == CHOOSE i \in 1..Len(q) : \A k \in 1..Len(q) : q[i] <= q[k]
+         IN  <<q[i]>> \o SortedSeqBag(SubSeq(q, 1, i - 1) \o SubSeq(q, i + 1, Len(q)))
+RECURSIVE Flat(_)
+Flat(ff) == IF ff = <<>> THEN <<>> ELSE Head(ff) \o Flat(Tail(ff))
+HashCv(f) == HashSeq(Flat(f), 7)
 InitEnv == LET K == atoi(IOEnv.VERIF_K)
                S == atoi(IOEnv.VERIF_SEED)
            IN { f \in InitAll : (HashCv(f) + S) % K = 0 }
+\* all orderings of the multisets whose sorted form falls in the bucket (permutation invariance is
+\* then visible across the group); NA = 1 only
+SortAsc(q) == SortedSeqBag(q)
+InitPermsEnv == LET K == atoi(IOEnv.VERIF_K)
+                    S == atoi(IOEnv.VERIF_SEED)
+                IN { f \in InitAll : (HashSeq(SortAsc(f[1]), 7) + S) % K = 0 }
+
+\* C06-focused next-state relation: rich FDWRA parameters, range updates and time-domain masks only
+\* to diversify the states FDWRA starts from
+NextC06 ==
+    \/ \E r \in Ranges, kw \in BOOLEAN, n \in NSet, mi \in MaxIts : Fdwra(r, kw, n, mi)
+    \/ \E r \in Ranges : UpdateRange(r, FALSE)
+    \/ \E S \in TdMasks : TdReject(S)
 SThrHalf == <<1, 2>>      \* grid step 0.02 Hz: 0.01 Hz = half a step
 SThrQuarter == <<1, 4>>   \* grid step 0.04 Hz
 SThrOne == <<1, 1>>       \* grid step 0.01 Hz
